@@ -201,6 +201,34 @@ PROPS = {
              'cut counts; every binary row (2^n, enumerated): implementation value vs the independent routing semantics, vs the exact '
              'model OR-tree value, total mass; structure validator; non-trivial = every learned network; distinct = distinct (data, learner, '
              'arguments)',
+    ),    'C16': dict(
+        module='c16',
+        modules=['DeeprobModel.Props.C16'],
+        theorems=['Deeprob.RatSpn.regions_partition', 'Deeprob.RatSpn.leaf_regions_partition', 'Deeprob.RatSpn.leaf_sizes', 'Deeprob.RatSpn.pad_count',
+                  'Deeprob.RatSpn.unpad_each_var_once_idx', 'Deeprob.RatSpn.unpad_each_var_once', 'Deeprob.RatSpn.unpad_scatter', 'Deeprob.RatSpn.unpad_in_domain',
+                  'Deeprob.RatSpn.old_unpad_keeps_pads', 'Deeprob.RatSpn.mpe_keeps_observed', 'Deeprob.RatSpn.topdown_reaches_one_repetition',
+                  'Deeprob.RatSpn.unroll_valid', 'Deeprob.RatSpn.ratspn_marg', 'Deeprob.RatSpn.ratspn_normalised', 'Deeprob.RatSpn.pad_dummies_neutral'],
+        fragments=[],
+        rule='architectures (features 2-12, every admissible depth, repetitions 1-3, random batch / sum sizes, 1-3 classes, random '
+             'parameters): on the implementation the exhaustive total mass over 2^n inputs (n <= 9), NaN-marginals against explicit sums, '
+             'all-missing = 0, MPE / sample shape, domain and evidence, sample law (Hoeffding, level 1e-9) on padded architectures; against '
+             'the model: region layers, padding / mask buffers, unpad gather (exact), forward values of the unrolled circuit (exact '
+             'rationals, 1e-4); non-trivial = every architecture; distinct = distinct (features, depth, repetitions, seed)',
+        level_note='The clause "samples follow the model distribution" is decided by the finite-sample test only (no theorem: the top-down '
+                   'index propagation is proved to reach one repetition in buffer order, not to induce the exact law). Trusted as elsewhere.',
+    ),
+    'C17': dict(
+        module='c17',
+        modules=['DeeprobModel.Props.C17'],
+        theorems=['Deeprob.DgcSpn.dgc_size', 'Deeprob.DgcSpn.dgc_scope_1d', 'Deeprob.DgcSpn.dgc_scope_1d_nopool', 'Deeprob.DgcSpn.dgc_pool_scope',
+                  'Deeprob.DgcSpn.dgc_product_disjoint', 'Deeprob.DgcSpn.dgc_final_full', 'Deeprob.DgcSpn.dgc_sum_same_scope', 'Deeprob.DgcSpn.dgc_valid',
+                  'Deeprob.DgcSpn.dgc_marg', 'Deeprob.DgcSpn.dgc_normalised', 'Deeprob.DgcSpn.dgc_mpe_keeps_observed'],
+        fragments=[],
+        rule='configurations (sides 2-12 incl. non powers of two, every pooling count dividing the side, three depth-wise settings, 1-3 '
+             'channels and classes, random parameters): all-missing = 0, each pixel used exactly once by the induced sub-circuits (leaf '
+             'gradients sum to 1), MPE keeps observed pixels; against the model: per-layer schedule and the scope of every cell (exact; '
+             'empirical scopes found by perturbing one pixel), forward values of the unrolled circuit; non-trivial = every configuration; '
+             'distinct = distinct configuration',
     ),
 }
 
